@@ -23,6 +23,15 @@ import (
 // Root is the /verif directory (overridable for tests).
 var Root = "/verif"
 
+// outRoot is where evidence/ and replays/ are written: Root, or a scratch dir when the
+// check script runs against a development worktree (VERIF_OUT).
+func outRoot() string {
+	if v := os.Getenv("VERIF_OUT"); v != "" {
+		return v
+	}
+	return Root
+}
+
 // Ctx is the per-run context of one check (one property, one tier).
 type Ctx struct {
 	Prop  string
@@ -315,9 +324,9 @@ func (c *Ctx) Finish() int {
 	}
 	code := 0
 	if c.ReplayPath == "" {
-		os.MkdirAll(filepath.Join(Root, "evidence"), 0o755)
+		os.MkdirAll(filepath.Join(outRoot(), "evidence"), 0o755)
 		b, _ := json.MarshalIndent(ev, "", " ")
-		if err := os.WriteFile(filepath.Join(Root, "evidence", c.Prop+".json"), append(b, '\n'), 0o644); err != nil {
+		if err := os.WriteFile(filepath.Join(outRoot(), "evidence", c.Prop+".json"), append(b, '\n'), 0o644); err != nil {
 			fmt.Fprintln(os.Stderr, "cannot write evidence:", err)
 			return 2
 		}
@@ -325,7 +334,7 @@ func (c *Ctx) Finish() int {
 	for _, sig := range c.violOrder {
 		v := c.viol[sig]
 		h := sha256.Sum256([]byte(sig))
-		p := filepath.Join(Root, "replays", fmt.Sprintf("%s-%s.json", c.Prop, hex.EncodeToString(h[:5])))
+		p := filepath.Join(outRoot(), "replays", fmt.Sprintf("%s-%s.json", c.Prop, hex.EncodeToString(h[:5])))
 		if c.ReplayPath != "" {
 			p = c.ReplayPath
 		} else {
